@@ -120,6 +120,10 @@ Sym == {Alphabet[i] : i \in DOMAIN Alphabet}
 Strings3 == {""} \cup Sym \cup {x \o y : x \in Sym, y \in Sym} \cup {x \o y \o z : x \in Sym, y \in Sym, z \in Sym}
 Prefixes == {x \o y \o z : x \in Sym, y \in Sym, z \in Sym}
 
+(* goal texts with parenthesised groups (single, doubled, tripled; around conjunctions and disjunctions): seeds *)
+(* of the text mutations only (what they must parse to is not claimed here)                                     *)
+GroupTexts == {"(a, b), c", "((a, b))", "((a; b))", "a, ((b; c))", "((a, b)), c", "(((a, b)))", "(a)", "((a))", "()", "a, (b; (c, d)), e",
+               "p :- q, ((r, s)).", "p :- (q; r), s.", "not((a, b))", "((a; b), c)", "(a; b); c", "p($X) :- ((q($X))), !."}
 (* ------------------------------ items ----------------------------------- *)
 Items ==
     CASE Slice = "terms"   -> {[kind |-> "term", ast |-> t] : t \in TermU} \cup {[kind |-> "raw", ast |-> Atom(r)] : r \in RawTexts}
@@ -127,7 +131,7 @@ Items ==
                               \cup {[kind |-> "altgoal", ast |-> g] : g \in AltOnly}
       [] Slice = "strings" -> {[kind |-> "string", ast |-> Atom(s)] : s \in Strings3}
                               \cup {[kind |-> "family", ast |-> Atom(s)] : s \in Prefixes}
-      [] Slice = "mutants" -> {[kind |-> "seedgoal", ast |-> g] : g \in Simple \cup ConjsS \cup {OrG(<<g1, g2>>) : g1 \in ConjsS, g2 \in ConjsS}}
+      [] Slice = "mutants" -> {[kind |-> "seedtext", ast |-> Atom(tx)] : tx \in GroupTexts} \cup {[kind |-> "seedgoal", ast |-> g] : g \in Simple \cup ConjsS \cup {OrG(<<g1, g2>>) : g1 \in ConjsS, g2 \in ConjsS}}
                               \cup {[kind |-> "seedrule", ast |-> c] : c \in {Clause(h, bd) : h \in Heads, bd \in ConjsS} \cup {Fact(h) : h \in Heads}}
                               \cup {[kind |-> "seedterm", ast |-> t] : t \in Depth1 \cup D1S}
 
